@@ -67,6 +67,44 @@ Proof.
 Qed.
 Print Assumptions C11_first_match_respell.
 
+(* ---- the first TOKEN ---------------------------------------------------------------------------------------- *)
+Definition first_tok (x : st) : option tok :=
+  match cur_first_match x with
+  | Some (a, k) => Some (mk_tok upper kws a (firstn k (rest x)))
+  | None => None
+  end.
+
+Definition is_askw (a : action) : bool := match a with AsKeyword => true | Emit _ => false end.
+
+(* the rules whose token type is looked up from the matched text cannot consume a white-space character *)
+Theorem C11_askw_free :
+  forallb (fun ra => negb (is_askw (snd ra)) || negb (consumes_set RSp (fst ra))) sql_regex = true.
+Proof. vm_compute. reflexivity. Qed.
+
+(* the first token has the same TYPE in both texts (and, when the type was looked up in the keyword dictionaries,
+   the same value) *)
+Theorem C11_first_token_run ch p p' t t' :
+  In ch all_letters -> prel RSp p p' -> RS RSp (ch :: t) (ch :: t') ->
+  tz_quiet (mkSt p (ch :: t)) -> tz_quiet (mkSt p' (ch :: t')) ->
+  match first_tok (mkSt p (ch :: t)), first_tok (mkSt p' (ch :: t')) with
+  | Some tk, Some tk' => fst tk = fst tk'
+  | None, None => True
+  | _, _ => False
+  end.
+Proof.
+  intros Hch Hp Ht Q Q'. pose proof (C11_first_match_run ch p p' t t' Hch Hp Ht Q Q') as H.
+  unfold first_tok. unfold first_rel in H.
+  destruct (cur_first_match (mkSt p (ch :: t))) as [[a k]|] eqn:E;
+    destruct (cur_first_match (mkSt p' (ch :: t'))) as [[a' k']|] eqn:E'; try contradiction; [|exact I].
+  destruct H as [<- Hafter]. destruct a as [ty|]; [reflexivity|]. cbn [mk_tok fst].
+  assert (Hfree : action_free RSp sql_regex AsKeyword).
+  { intros r Hin. pose proof (proj1 (forallb_forall _ _) C11_askw_free (r, AsKeyword) Hin) as Hr.
+    cbn [fst snd is_askw negb orb] in Hr. destruct (consumes_set RSp r); [discriminate | reflexivity]. }
+  rewrite (first_match_value lower RSp sql_regex (mkSt p (ch :: t)) (mkSt p' (ch :: t')) AsKeyword k k' Hfree Ht E E' Hafter).
+  reflexivity.
+Qed.
+Print Assumptions C11_first_token_run.
+
 (* the rules that no letter can start and the TZCast rule: quiet whenever the first letter is not A or W *)
 Theorem tz_quiet_letter ch p t :
   forallb (fun ra => negb (is_tz (snd ra)) || no_start (fst ra) ch) sql_regex = true -> tz_quiet (mkSt p (ch :: t)).
@@ -86,4 +124,8 @@ Definition ex_run_b : text := [79;82;68;69;82;32;66;89;32;120]%N.
 Example ex_run_first :
   cur_first_match (mkSt None ex_run_a) = Some (Emit T_Keyword, 11)
   /\ cur_first_match (mkSt None ex_run_b) = Some (Emit T_Keyword, 8).
+Proof. split; vm_compute; reflexivity. Qed.
+Example ex_run_tok :
+  first_tok (mkSt None ex_run_a) = Some (T_Keyword, firstn 11 ex_run_a)
+  /\ first_tok (mkSt None ex_run_b) = Some (T_Keyword, firstn 8 ex_run_b).
 Proof. split; vm_compute; reflexivity. Qed.
